@@ -287,6 +287,10 @@ def with_split(rng, spec, k=None):
             t = Fraction(rng.randint(1, 15), 16)
             inner.add(lo + (hi - lo) * t)
         inner = sorted(inner, reverse=(hi < lo))
+        if rng.random() < 0.35:
+            # a repeated break point (a piece of length zero) in the middle or at the start: the pieces after it still count
+            inner = list(inner); j = rng.randrange(len(inner) + 1)
+            inner.insert(j, inner[j - 1] if j > 0 else lo)
     s = dict(spec); s["pts"] = fsl([lo] + list(inner) + [hi]); return s
 
 
@@ -402,7 +406,10 @@ def plan(rng, tier_):
         inf = has_inf(spec)
         prec = rng.choice(precs)
         if prec == 500 and rng.random() < 0.5: prec = rng.choice(precs)
+        if q and i < 3:
+            prec = rng.choice([400, 500])          # the node tables of the highest levels are only exercised above ~340 bits
         method = rng.choice(["default", "tanh-sinh", "quadts"]) if inf else rng.choice(METHODS_1D)
+        if q and i < 3 and not inf: method = "tanh-sinh"
         want_rint = (not inf) and prec <= 100 and rint_left[0] > 0 and rng.random() < 0.6
         if want_rint: rint_left[0] -= 1
         jobs.append((spec, "plain", method, prec, want_rint))
